@@ -37,7 +37,10 @@ def run(ck, F, tier):
     ck.rule("S2", "encode returns [message | parity] with the message operand being the parameter itself")
     ck.rule("S3", "staircase reader (is_staircase) and the Staircase encoder arm agree")
     ck.rule("S4", "dense arm wiring: column map, generator slice, matrix-vector product")
+    ck.rule("S5", "every row operation of gauss_reduction spans the row from the pivot column to the last column")
     ck.assume("domain of the property: rows >= 1 and cols >= rows")
+    from ..linalg_rules import row_operation_width
+    row_operation_width(ck, F, "S5", "linalg::gauss_reduction")
     H = var("h")
     Rr, Cc = app(SM + "num_rows", H), app(SM + "num_cols", H)
     reviewed = {
